@@ -29,6 +29,8 @@ type Case struct {
 	Refs    []error
 	RefRecs []*R // nil for (node j) references
 	Toks    []Token
+	// NoModel: the case is judged by the direct oracles only (not sent to the model driver)
+	NoModel bool
 }
 
 type Mismatch struct {
